@@ -454,6 +454,30 @@ def main():
         print(f"FRAMEWORK ERROR: {len(st.framework)} requests not understood, e.g. {req[:300]} -> impl={impl[:100]} model={model[:100]}")
         return 2
 
+    # confirmation: a failure counts only if it reproduces when the request is executed again on its
+    # own (guards the timing-sensitive pty targets against a one-off scheduling artefact)
+    def confirm(cases, kind):
+        cases.sort(key=lambda c: len(c[1]))
+        head, tail = cases[:300], cases[300:]
+        if not head:
+            return cases
+        again = {r[0]: r for r in exec_requests([c[1] for c in head], feats)}
+        kept = []
+        for c in head:
+            r = again.get(c[1])
+            if r is None:
+                kept.append(c)
+                continue
+            _, impl, model, spec = r
+            cok, sok = verdict_of(impl, model, spec)
+            if (kind == "spec" and not sok) or (kind == "corr" and not cok):
+                kept.append((c[0], c[1], impl, model, spec))
+        return kept + tail
+    n_spec0, n_corr0 = len(st.spec_fail), len(st.corr_fail)
+    st.spec_fail = confirm(st.spec_fail, "spec")
+    st.corr_fail = confirm(st.corr_fail, "corr")
+    unconfirmed = (n_spec0 - len(st.spec_fail)) + (n_corr0 - len(st.corr_fail))
+
     header_tokens = {t["name"]: t.get("header_tokens", 1) for t in cfg["targets"]}
     known_hit = {}
     # 5. classification
@@ -522,6 +546,7 @@ def main():
             "disagreements_checked": len(st.corr_fail) + len(st.spec_fail),
             "distribution": dict(sorted(st.dist.items())),
             "known_findings_hit": {k: v[0] for k, v in known_hit.items()},
+            "failures_not_reproduced_on_rerun": unconfirmed,
             "exhaustive": cfg.get("exhaustive", {}).get(tier, False),
             "statements_not_yet_proved": cfg.get("unproved", []),
         },
